@@ -123,7 +123,9 @@ struct Ins {
 fn parse_listing(l: &str) -> Vec<Ins> {
     let mut out: Vec<Ins> = vec![];
     for line in l.lines().skip(1) {
-        let is_new = line.len() > 5 && line.as_bytes()[..4].iter().all(|b| b.is_ascii_digit()) && line.as_bytes()[4] == b' ';
+        // the index is zero-padded to four digits and simply grows beyond that for chunks of 10 000 instructions and more
+        let digits = line.bytes().take_while(|b| b.is_ascii_digit()).count();
+        let is_new = digits >= 4 && line.len() > digits + 1 && line.as_bytes()[digits] == b' ' && line[..digits].parse::<usize>().ok() == Some(out.len());
         if !is_new {
             if let Some(last) = out.last_mut() {
                 last.text.push('\n');
@@ -131,7 +133,7 @@ fn parse_listing(l: &str) -> Vec<Ins> {
             }
             continue;
         }
-        let text = line[5..].to_string();
+        let text = line[digits + 1..].to_string();
         let name: String = text.chars().take_while(|c| c.is_alphanumeric()).collect();
         let jump = if matches!(name.as_str(), "Jump" | "PopJumpIfFalse" | "JumpIfFalseOrPop" | "JumpIfTrueOrPop" | "Iterate") { text[name.len()..].trim_matches(|c| c == '(' || c == ')').parse().ok() } else { None };
         let strs = if matches!(name.as_str(), "LoadName" | "LoadAttr" | "LoadPath" | "WritePath") { text.split('"').skip(1).step_by(2).map(|s| s.to_string()).collect() } else { vec![] };
